@@ -1120,7 +1120,9 @@ async fn load_targets(
             path,
             url: metadata_base_url.clone(),
         })?;
-    let (max_targets_size, specifier) = match targets_meta.length {
+    // The length listed in snapshot.json bounds targets.json only. Delegated roles are bounded by
+    // their own snapshot entries (or by the `max_targets_size` setting), see `load_delegations`.
+    let (targets_size, specifier) = match targets_meta.length {
         Some(length) => (length, "snapshot.json"),
         None => (max_targets_size, "max_targets_size parameter"),
     };
@@ -1128,13 +1130,13 @@ async fn load_targets(
         fetch_sha256(
             transport,
             targets_url.clone(),
-            max_targets_size,
+            targets_size,
             specifier,
             &hashes.sha256,
         )
         .await?
     } else {
-        fetch_max_size(transport, targets_url.clone(), max_targets_size, specifier).await?
+        fetch_max_size(transport, targets_url.clone(), targets_size, specifier).await?
     };
     let data = stream
         .into_vec()
@@ -1261,10 +1263,12 @@ async fn load_delegations(
                 path: path.clone(),
                 url: metadata_base_url.clone(),
             })?;
-        let specifier = "max_targets_size parameter";
+        let (role_size, specifier) = match role_meta.length {
+            Some(length) => (length, "snapshot.json"),
+            None => (max_targets_size, "max_targets_size parameter"),
+        };
         // load the role json file
-        let stream =
-            fetch_max_size(transport, role_url.clone(), max_targets_size, specifier).await?;
+        let stream = fetch_max_size(transport, role_url.clone(), role_size, specifier).await?;
         let data = stream
             .into_vec()
             .await
